@@ -34,14 +34,18 @@ def compare(it, shape_obj, real_obj, path, out, depth=0):
         if f.startswith('__') or f.startswith(('g_', 'na:', 'ea:')):
             continue
         if f not in st.heap[real_obj.id]:
-            out.append((f'{path}.{f}: the constructor creates this field', False))
-            continue
+            raise Unsupported(f'{path}.{f}: the constructor no longer creates this field (renamed or removed): the shape the '
+                              f'method contracts start from is out of date')
         rv = st.heap[real_obj.id][f]
         ks, kr = kind_of(st, sv), kind_of(st, rv)
         if ks == 'value' or kr == 'value':
             continue            # scalars / opaque values: nothing about the representation
-        out.append((f'{path}.{f}: the constructor builds a {ks.split(":")[-1].split("::")[-1]} (what the contracts of the methods assume), not a '
-                    f'{kr.split(":")[-1].split("::")[-1]}' if ks != kr else f'{path}.{f}: {ks.split(":")[-1].split("::")[-1]}', ks == kr))
+        if ks != kr:
+            # a changed representation is not by itself a violation (the methods may have been adapted with it): the
+            # contracts that assume the old one cannot decide, a bounded stand-in may
+            raise Unsupported(f'{path}.{f}: the constructor builds a {kr.split(":")[-1].split("::")[-1]}, the contracts of the methods '
+                              f'assume a {ks.split(":")[-1].split("::")[-1]}')
+        out.append((f'{path}.{f}: {ks.split(":")[-1].split("::")[-1]}', True))
         if ks == kr and isinstance(sv, Ref) and isinstance(rv, Ref) and '::' in sv.cls and depth < 2:
             compare(it, sv, rv, f'{path}.{f}', out, depth + 1)
 
